@@ -145,6 +145,13 @@ fn mtime_ns(p: &Path) -> Option<i128> {
     Some((ft.unix_seconds() as i128 - EPOCH_S as i128) * 1_000_000_000 + ft.nanoseconds() as i128)
 }
 
+/// Content hash with the (process-specific) scratch path masked: the grammar path is part of the
+/// cache comment.
+fn norm_hash(b: &[u8], dir: &Path) -> u64 {
+    let s = String::from_utf8_lossy(b).replace(dir.to_str().unwrap_or(""), "<DIR>");
+    fnv(s.as_bytes())
+}
+
 pub fn execute(exe: &Path, sc: &BScenario, dir: &Path) -> BReport {
     let mut rep = BReport::default();
     let _ = std::fs::remove_dir_all(dir);
@@ -294,7 +301,7 @@ pub fn execute(exe: &Path, sc: &BScenario, dir: &Path) -> BReport {
                 let rewritten_y = after_y.0.is_some() && (after_y.1 != before_y.1 || after_y.0 != before_y.0);
                 let rewritten_l = after_l.0.is_some() && (after_l.1 != before_l.1 || after_l.0 != before_l.0);
                 let fault_fired = fault.is_some() && (crashed || !ok);
-                lh = fnv_add(lh, format!("{oi}|{ok}|{crashed}|{clean_ok}|{rewritten_y}|{rewritten_l}|{:?}|{:?}", after_y.0.as_ref().map(|b| fnv(b)), after_l.0.as_ref().map(|b| fnv(b))).as_bytes());
+                lh = fnv_add(lh, format!("{oi}|{ok}|{crashed}|{clean_ok}|{rewritten_y}|{rewritten_l}|{:?}|{:?}", after_y.0.as_ref().map(|b| norm_hash(b, dir)), after_l.0.as_ref().map(|b| norm_hash(b, dir))).as_bytes());
                 match fault {
                     Some((m, _)) if fault_fired => {
                         *rep.probes.entry(if m == "crash" { "builds_crashed_mid_write" } else { "builds_with_short_write_error" }).or_insert(0) += 1;
